@@ -141,6 +141,19 @@ class Server:
             sess.closed = True
         self.unlock(sess)
 
+    def kill_proc(self, proc):
+        """a client PROCESS crashed: every connection it had is reset -- open transactions roll back, its lock is
+        released and its lock waiters are forgotten (nothing of that process will ever run again)."""
+        self.waiters = collections.deque((s, f) for s, f in self.waiters if getattr(s, 'proc', None) != proc)
+        n = 0
+        for c in list(self.conns):
+            if getattr(c, 'proc', None) == proc and not c.closed:
+                c.dead = True
+                c.closed = True
+                self.kill_session(c.sess)
+                n += 1
+        return n
+
 
 class LostConnection(Exception):
     pass
@@ -246,6 +259,12 @@ class Connection:
         self.server = server
         self.sess = server.eng.session()
         self.sess.autocommit = autocommit
+        try:
+            from simkit.loop import PROC
+            self.proc = PROC.get('main')
+        except Exception:  # pylint: disable=broad-except
+            self.proc = 'main'
+        self.sess.proc = self.proc  # the simulated process that owns this connection (see Server.kill_proc)
         self.dead = False
         self.closed = False
         server.conns.append(self)
